@@ -47,6 +47,23 @@ theorem int16_roundtrip (a : BitVec 16) : bytesToInt16 (int16ToBytes a) = a := b
 theorem int64ToBytes_injective (a b : BitVec 64) (h : int64ToBytes a = int64ToBytes b) : a = b := by
   rw [← int64_roundtrip a, ← int64_roundtrip b, h]
 
+/-- Composite / distributed sort keys: every site that sorts int64 keys by bytes (trace cross-group
+    merge `newComparableTraceResult`, vectorized trace `NewMergeItem`, tag sort keys through
+    `MarshalTagValue`) uses `Int64ToBytes`, hence orders like the keys. For timestamp tags the key is the
+    instant in nanoseconds, so inside the int64 range byte order = time order. -/
+theorem timestampSortKey_ordered (s₁ n₁ s₂ n₂ : Int)
+    (h₁ : -(2 ^ 63) ≤ s₁ * 1000000000 + n₁ ∧ s₁ * 1000000000 + n₁ < 2 ^ 63)
+    (h₂ : -(2 ^ 63) ≤ s₂ * 1000000000 + n₂ ∧ s₂ * 1000000000 + n₂ < 2 ^ 63) :
+    lexLt (timestampSortKey s₁ n₁) (timestampSortKey s₂ n₂) =
+      decide (s₁ * 1000000000 + n₁ < s₂ * 1000000000 + n₂) := by
+  unfold timestampSortKey
+  rw [int64_ordered, BitVec.slt_eq_decide]
+  have e₁ : (BitVec.ofInt 64 (s₁ * 1000000000 + n₁)).toInt = s₁ * 1000000000 + n₁ :=
+    BitVec.toInt_ofInt_eq_self (by decide) (by simpa using h₁.1) (by simpa using h₁.2)
+  have e₂ : (BitVec.ofInt 64 (s₂ * 1000000000 + n₂)).toInt = s₂ * 1000000000 + n₂ :=
+    BitVec.toInt_ofInt_eq_self (by decide) (by simpa using h₂.1) (by simpa using h₂.2)
+  rw [e₁, e₂]
+
 /-! ## 2. floats (repaired `Float64ToOrderedBytes`: sign-bit test) -/
 
 /-- every bit pattern, NaNs and `-0.0` included, decodes back to itself. -/
